@@ -141,7 +141,7 @@ def check_c01(ctx, ana, case, judge=True):
     for i in range(1, len(tr.els)):
         r_ref = nums['r'][i - 1]
         r_attr = tr.els[i]['ratio']
-        if not (isinstance(r_attr, float) and close(r_attr, r_ref, 1e-12)):
+        if not (isinstance(r_attr, (int, float)) and not isinstance(r_attr, bool) and close(r_attr, r_ref, 1e-12)):
             if judge:
                 ctx.violation('C01:ratio-attribute', {'element': tr.els[i]['name'], 'master_gear_ratio': r_attr, 'reference': r_ref}, case)
             return
